@@ -51,6 +51,10 @@ def _text_without(draw, bad: bytes, max_bytes=None, allow_empty=True):
     return s
 
 
+# the face bitfield is of arbitrary length on the wire: faces beyond the 45 a viewer draws are legal there
+_FACE = st.one_of(st.integers(0, 20), st.integers(0, 70), st.sampled_from([6, 7, 13, 14, 44, 45, 48, 49, 62, 63, 64]))
+
+
 def gen_value(draw, spec, ctx=None, depth=0, window=None, overrides=None):
     """rich (object-mode) value for `spec`"""
     if depth > 12:
@@ -68,7 +72,7 @@ def gen_value(draw, spec, ctx=None, depth=0, window=None, overrides=None):
         if issubclass(spec, se.Null):
             return None
         if issubclass(spec, tmpls.TEFaceBitfield):
-            return tuple(sorted(draw(st.sets(st.integers(0, 20), min_size=1, max_size=3))))
+            return tuple(sorted(draw(st.sets(_FACE, min_size=1, max_size=3))))
         if issubclass(spec, namevalue.NameValuesSerializer):
             out = namevalue.NameValueCollection()
             for _ in range(draw(st.integers(0, 2))):
@@ -88,7 +92,7 @@ def gen_value(draw, spec, ctx=None, depth=0, window=None, overrides=None):
         default = gen_value(draw, spec._spec, ctx, nxt)
         vals = {None: default}
         for _ in range(draw(st.integers(0, 2))):
-            faces = tuple(sorted(draw(st.sets(st.integers(0, 20), min_size=1, max_size=3))))
+            faces = tuple(sorted(draw(st.sets(_FACE, min_size=1, max_size=3))))
             # an exception may legally repeat the default value
             vals[faces] = default if draw(st.integers(0, 3)) == 0 else gen_value(draw, spec._spec, ctx, nxt)
         return vals
